@@ -2,17 +2,31 @@
 from lib import coq_list as L, coq_Z as Z
 
 THEOREMS = ['C09_small_factors_spec', 'C09_repeat', 'C09_repeat_language', 'C09_opt', 'C09_plus', 'C09_star',
-            'C09_language_of_counts', 'C09_helpers_inlined', 'C09_example']
+            'C09_language_of_counts', 'C09_helpers_inlined', 'C09_example',
+            'C09_compile_preserves_language', 'C09_compile_pruned_preserves_language', 'C09_compile_total',
+            'C09_compile_example', 'C09_compile_example_sentence']
 GEN_DEPS = ['Consts', 'SmallFactors']
 RULE = ('(a) small_factors(n, mf) for sampled n <= 2000 and mf in 3..9 against the regenerated Gallina function; '
         '(b) EBNF_to_BNF._generate_repeats(x, n, m) helper-rule structure (helpers inlined to a tree) against '
         'Ebnf/Repeat.generate_repeats for sampled 0<=n<=m incl. all m in 46..54; (c) end-to-end: grammars with '
         'x~n..m / ? / * / + for x a terminal, rule, group, template argument, and inside terminals, under Earley and '
-        'LALR, k in {n-1,n,n+1,mid,m-1,m,m+1}: acceptance == (n<=k<=m) and k children in order. '
+        'LALR, k in {n-1,n,n+1,mid,m-1,m,m+1}: acceptance == (n<=k<=m) and k children in order; '
+        '(e) compile-structure: random nested rule bodies (depth <= 3, sequences, alternations, ? * + ~n ~n..m incl. '
+        'ranges >= 50, a fixed corpus of sharing / nesting shapes, and the shared-operand family: one atom / sequence '
+        'group / 2-3-alternative group under two or three different operators): the rules lark compiles (Grammar.compile) equal '
+        'Ebnf/Compile.compile_pruned up to a renaming of helper rules, alternatives in order; compile-language: '
+        'acceptance by Earley of all words up to length 5 equals the stated-count meaning of the expression; '
+        'shared-operand: the same operand under 2-3 operators in one rule and across rules, both orders: acceptance of '
+        'every combination of 0..7 occurrences per site equals the count oracle. '
         'non-trivial = distinct (n,m) with m >= 2 / distinct (grammar,k)')
-TRUSTED_BASE = ['hand model Ebnf/Repeat.v of _add_repeat_rule/_add_repeat_opt_rule/_generate_repeats/expr (tied by '
+TRUSTED_BASE = ['hand model Ebnf/Compile.v of EBNF_to_BNF (expr, rules_cache, _add_rule, _add_recurse_rule, _add_repeat_rule, '
+                '_add_repeat_opt_rule, _generate_repeats) + SimplifyRule_Visitor + unused-rule filter, tied by comparison '
+                'of the compiled rule sets up to helper renaming',
+                'hand model Ebnf/Repeat.v of _add_repeat_rule/_add_repeat_opt_rule/_generate_repeats/expr (tied by '
                 'structural comparison of helper rules); small_factors and thresholds regenerated']
-ASSUMPTIONS = ['helper rules are compared after inlining (rule cache sharing is not observable in the tree)']
+ASSUMPTIONS = ['stream (b): helper rules are compared after inlining (rule cache sharing is not observable in the tree)',
+               'stream (e): helper numbering is compared up to renaming (the model transforms depth-first, lark level by '
+               'level); aliases, maybe_placeholders, keep_all_tokens and templates are outside the compiler model']
 IMPORTS = 'From LV Require Import Base.Prelude Gen.Consts Gen.SmallFactors Ebnf.Repeat.'
 
 
@@ -328,6 +342,168 @@ def terminal_stream(ctx):
                               'terminal %s %s %r' % (render_texpr(e), 'must match' if want else 'must not match', w))
 
 
+# --- (e) EBNF-to-BNF compilation of nested expressions against Ebnf/Compile.v -----------------------------
+def S(i):
+    return ('sym', i)
+
+
+def G(*alts):
+    return ('alt', [('seq', list(a)) for a in alts])
+
+
+# shapes that exercise the rule cache, nesting and distribution (always run, independent of the seed)
+FIXED_EXPRS = [
+    G([('star', S(0))]), G([('plus', S(0))]), G([('opt', S(0))]), G([('rep', S(0), 2, 4)]),
+    G([('star', S(0)), ('plus', S(0))]),                                   # * and + of the same operand share a helper
+    G([('plus', S(0)), ('star', S(0))]),
+    G([('star', G([S(0)], [S(1)]))]), G([('plus', G([S(0), S(1)], [S(2)]))]),
+    G([('star', G([('star', S(0))]))]), G([('star', G([('plus', S(0)), S(1)]))]),
+    G([('star', G([('opt', S(0)), S(1)]))]), G([('opt', G([('star', S(0))], [S(1)]))]),
+    G([('plus', G([('opt', S(0))]))]),
+    G([S(0), ('opt', S(1)), ('opt', S(2))]), G([('opt', S(0)), ('opt', S(0))]),
+    G([('opt', G([S(0)], [S(1), ('opt', S(2))])), S(0)]),
+    G([('rep', G([S(0)], [S(1)]), 2, 2)]), G([('rep', G([S(0)], [S(1)]), 0, 2)]),
+    G([('rep', G([('star', S(0)), S(1)]), 1, 3)]),
+    G([('rep', G([('rep', S(0), 1, 2)]), 2, 3)]),
+    G([('star', G([('rep', S(0), 2, 3)], [S(1)]))]),
+    G([('rep', S(0), 50, 50)]), G([('rep', S(0), 0, 50)]), G([('rep', S(0), 49, 50)]), G([('rep', S(0), 3, 60)]),
+    G([('rep', S(0), 64, 64), ('rep', S(0), 64, 64)]),                     # whole chain from the cache
+    G([('rep', S(0), 50, 50), ('rep', S(0), 50, 75)]),                     # mn-chain shared, diff chain new
+    G([('rep', S(0), 10, 75), ('rep', S(0), 20, 85)]),                     # diff chains share a prefix
+    G([('rep', S(0), 10, 75), ('rep', S(1), 10, 75)]),
+    G([('rep', S(0), 0, 51), S(3), ('rep', S(0), 0, 52)]),                 # opt helpers (4,0,t,x) and (4,1,t,x): same a, target
+    G([('rep', S(0), 52, 52), S(3), ('rep', S(0), 53, 53)]),
+    G([('rep', S(0), 0, 50), S(3), ('rep', S(0), 0, 51)]),
+    G([('rep', G([S(0), S(1)]), 50, 52)]), G([('rep', G([S(0)], [S(1)]), 50, 51)]),
+    G([('rep', G([('plus', S(0)), S(1)]), 51, 51)]),
+    G([('rep', G([('rep', S(0), 50, 50)]), 50, 50)]),
+    G([('star', G([('rep', S(0), 50, 53)]))]),
+    G([('rep', G([('plus', S(0))]), 0, 0)]),                                # helper created but unused: filtered out
+    G([S(0)], [S(1), ('star', S(2))], []), G([], [S(0)]),
+    G([('plus', S(0))], [('plus', S(0)), S(1)]),
+]
+
+
+def compile_stream(ctx):
+    from props import C09_compile as CC
+    rng = ctx.rng
+    wide = 3 if ctx.widen else 1
+    shared = CC.shared_cases(rng, ctx.scale(14, 150) * wide)
+    exprs = (list(FIXED_EXPRS) + [c[2] for c in shared if not c[5]] + CC.factor_cases(rng, ctx.scale(5, 40) * wide)
+             + [CC.gen_expr(rng) for _ in range(ctx.scale(70, 900) * wide)])
+    cases, meta = [], []
+    for e in exprs:
+        text = CC.grammar_text(e)
+        try:
+            rs = CC.lark_rules(text)
+        except Exception as ex:
+            # the model compiles every expression with well-formed ranges (C09_compile_total)
+            ctx.violation('compile-construct', {'grammar': text, 'expect_error': False, 'error': repr(ex)[:300]}, True,
+                          'compiling a rule body with nested operators failed: %r' % (ex,))
+            continue
+        nhelp = len({o for o, _ in rs}) - 1
+        ctx.count('compile-structure', key=text, nontrivial=nhelp > 0 or len(rs) > 1,
+                  helpers=min(nhelp, 8), factored=any(x[0] == 'rep' and x[3] >= 50 for x in CC.subexprs(e)))
+        cases.append('(%s, %s)' % (CC.coq_expr(e), CC.coq_rules_text(rs)))
+        meta.append((e, text, rs))
+    ctx.sample({'compile': {'grammar': meta[-1][1].split('\n')[0], 'rules': len(meta[-1][2])}})
+    import time, os
+    if os.environ.get('C09_DUMP'):
+        open(os.environ['C09_DUMP'], 'w').write('\n'.join(cases))
+    t_coq = time.time()
+    bad, errs = ctx.coq_bad_indices('c09compile', CC.IMPORTS_COMPILE, 'compile_check_s', cases, chunk=100)
+    ctx.note('compile-structure: %d cases, %d characters of Coq literals, vm_compute comparison %.1f s'
+             % (len(cases), sum(len(c) for c in cases), time.time() - t_coq))
+    for er in errs:
+        ctx.violation('correspondence:coq-eval', {'error': er}, False, er[:300])
+    searched = 0
+    for i in bad:
+        e, text, rs = meta[i]
+        found = CC.language_search(e, text, maxlen=6, limit=1500) if searched < 6 else None
+        searched += 1
+        if found and found[0] == '<construct>':
+            ctx.violation('compile-construct', {'grammar': text, 'expect_error': False, 'error': found[1]}, True,
+                          'the parser cannot be built for a rule body with nested operators')
+        elif found:
+            w, want = found
+            ctx.violation('compile-count', {'grammar': text, 'text': w, 'expect_accept': want}, True,
+                          'compiled rules of %r differ from the model and %r is %s but %s by the stated counts'
+                          % (text.split('\n')[0], w, 'rejected' if want else 'accepted', 'matches' if want else 'does not match'))
+        else:
+            ctx.violation('correspondence:Ebnf/Compile.compile_pruned vs EBNF_to_BNF+SimplifyRule_Visitor',
+                          {'no_longer_checks': 'compiled rule set agreement (up to helper renaming)', 'grammar': text,
+                           'lark_rules': [[o, syms] for o, syms in rs][:40]}, False,
+                          'compiled rules of %r differ from the model (no word up to length 6 separates them)'
+                          % text.split('\n')[0])
+    # the property itself at the language level, on the implementation (independent of the model)
+    nfix = len(exprs) - ctx.scale(70, 900) * wide
+    sample = list(FIXED_EXPRS[:20:2]) + [m[0] for m in meta[nfix:][:ctx.scale(10, 150) * wide]]
+    for e in sample:
+        if any(x[0] == 'rep' and x[3] >= 6 for x in CC.subexprs(e)):
+            continue
+        text = CC.grammar_text(e)
+        found = CC.language_search(e, text, maxlen=5, limit=ctx.scale(260, 1400))
+        ctx.count('compile-language', key=text)
+        if found and found[0] == '<construct>':
+            ctx.violation('compile-construct', {'grammar': text, 'expect_error': False, 'error': found[1]}, True,
+                          'the parser cannot be built for a rule body with nested operators')
+        elif found:
+            w, want = found
+            ctx.violation('compile-count', {'grammar': text, 'text': w, 'expect_accept': want}, True,
+                          '%r is %s but %s by the stated counts' % (w, 'rejected' if want else 'accepted',
+                                                                     'matches' if want else 'does not match'))
+    # shared-operand family: the same operand under 2-3 different operators (rules_cache sharing), in one rule
+    # (also compared structurally above) and across rules; acceptance for every combination of occurrence counts
+    from lark import Lark
+    from lark.exceptions import UnexpectedInput
+    for label, text, spec, x, nsites, tworules in shared:
+        try:
+            p = Lark(text, parser='earley')
+        except Exception as ex:
+            ctx.violation('compile-construct', {'grammar': text, 'expect_error': False, 'error': repr(ex)[:300]}, True,
+                          'a grammar using one operand under several operators cannot be built: %r' % (ex,))
+            continue
+        nbad = 0
+        for counts, w in CC.shared_words(x, nsites, rng):
+            want = CC.spec_accepts(spec, w)
+            try:
+                p.parse(w)
+                got = True
+            except UnexpectedInput:
+                got = False
+            ctx.count('shared-operand', key=(text, w), kind=label.split(':')[0], accepted=got)
+            if got != want and nbad < 2:
+                nbad += 1
+                ctx.violation('shared-operand-count', {'grammar': text, 'text': w, 'expect_accept': want,
+                                                       'occurrences': list(counts)}, True,
+                              '%s: %r (occurrence counts %s) is %s but %s by the stated counts'
+                              % (label, w, list(counts), 'rejected' if want else 'accepted',
+                                 'matches' if want else 'does not match'))
+    # bad ranges: GrammarError in lark, AssertFail in the model
+    from lark.exceptions import GrammarError
+    badr = [G([('rep', S(0), 3, 2)]), G([S(1), ('star', G([('rep', S(0), 51, 50)]))])]
+    terms = []
+    for e in badr:
+        text = 'start: %s\nX0: "a"\nX1: "b"\n' % CC.render(e).replace('~3..2', '~3..2')
+        ctx.count('compile-badrange', key=text)
+        try:
+            Lark(text)
+            ctx.violation('compile-badrange', {'grammar': text, 'expect_error': True}, True,
+                          'a range with max < min was accepted')
+        except GrammarError:
+            pass
+        except Exception as ex:
+            ctx.violation('compile-badrange', {'grammar': text, 'expect_error': True, 'error': repr(ex)[:200]}, False,
+                          'unexpected exception type for a bad range')
+        terms.append(CC.coq_expr(e))
+    bad, errs = ctx.coq_bad_indices('c09badrange', CC.IMPORTS_COMPILE, 'compile_fails', terms)
+    for er in errs:
+        ctx.violation('correspondence:coq-eval', {'error': er}, False, er[:300])
+    for i in bad:
+        ctx.violation('correspondence:Ebnf/Compile.ebnf range check', {'no_longer_checks': 'bad-range rejection'}, False,
+                      'model accepts a range that lark rejects')
+
+
 def correspond(ctx):
     rng = ctx.rng
     wide = 3 if ctx.widen else 1
@@ -431,10 +607,35 @@ def correspond(ctx):
         run_e2e(ctx, g, unit, per, n, m, kind)
     # (d) operators inside terminals -------------------------------------------------------
     terminal_stream(ctx)
+    # (e) the EBNF-to-BNF compilation as a whole ------------------------------------------------
+    import time
+    t0 = time.time()
+    compile_stream(ctx)
+    ctx.note('streams (e) compile-structure / compile-language / shared-operand took %.1f s' % (time.time() - t0))
 
 
 def replay(ctx, case):
     w = case['witness']
+    if 'expect_accept' in w:
+        from lark import Lark
+        from lark.exceptions import UnexpectedInput
+        try:
+            p = Lark(w['grammar'], parser='earley')
+        except Exception:
+            return True
+        try:
+            p.parse(w['text'])
+            got = True
+        except UnexpectedInput:
+            got = False
+        return got != w['expect_accept']
+    if 'expect_error' in w:
+        from lark import Lark
+        try:
+            Lark(w['grammar'], parser='earley')
+            return w['expect_error']
+        except Exception:
+            return not w['expect_error']
     if 'word' in w:
         import re
         from lark import Lark
